@@ -41,9 +41,18 @@ def corpus():
     msgs += [b"A #" + bytes([b]) + d for b in range(256) for d in (b"FF", b"17", b"01")]
     msgs += [b"A (1;B 2)", b"A (;)", b"A (1,2;B 3);C", b"A #10 ", b"A #10 ,7", b"A #10abc", b"A #10'abc'", b"A #200,1", b"A #10;B", b"A #10,5", b"A? ,1", b"*A? , 1", b"A:B? ,1", b"A ,1",
              b"A? 1,", b"A 1 ,", b"*RST;:A:B?", b"A:B?;*RST;C:D?;E?", b"*RST;A", b"A;;B", b"A; ;B", b"*RST;;A", b"A:B;;C"]
+    import stress
+    msgs += stress.trailing_ws_messages()
+    msgs += [b"A #0ab\r\n", b"A #0\r\r\n", b"A #0ab\r", b"A #0\x34\x12\xff\x7f\x0d\x0d\n", b"A:B?\tMAX", b"A?\x0c1", b"A?\t", b"A?\r1", b"*IDN?\t", b"A\tB", b"A\x0c1",
+             b"A 'it''s caf\xc3\xa9'", b'A "a""\xb5"', b"A 'a''\x80", b"A 'a''b''\xff'", b'A "" "\x80"']
     out = [L(m) for m in msgs]
     out += [L(m, "p") for m in [b"1,2", b" 1", b"ABC,1 V", b",1", b"'s' x", b"#H1F;", b"(1:2),3"]]
     return out
+
+
+def long_cases(tier):
+    import stress
+    return [mk("lex h " + hexs(m), None, "long") for n in stress.lens(tier) for m in stress.long_element_messages(n) + stress.long_element_messages(n, tail=b";B 1")]
 
 
 def generate(rng, tier):
@@ -82,7 +91,7 @@ def generate(rng, tier):
                 cases.append(mk("lex h " + hexs(b"A " + s), None, "sweep"))
     global _kinds
     _kinds = dict(g.kinds)
-    return cases
+    return cases + long_cases(tier)
 
 
 _kinds = {}
